@@ -174,10 +174,11 @@ Call(M, S, I, h) ==
       \* count before its first frame
       r0    == [prevMode |-> M.prevMode, prevCh |-> IF multi /\ ~d.tm THEN d.sch ELSE M.prevCh, first |-> M.first,
                 pfq |-> M.pfq, bwSwitch |-> M.bwSwitch, outs |-> <<>>]
-      rN    == Frames(r0, 1, K)
+      fit   == Len(h.kinds) = K.nf             \* (records are built eagerly: never walk kinds past its end)
+      rN    == IF fit THEN Frames(r0, 1, K) ELSE r0
       silk  == d.mode # MODE_CELT            \* silk_Encode ran (line 2094): it rewrites switchReady, line 2115 opusCanSwitch
-  IN [ok |-> d.bwOK /\ Len(h.kinds) = K.nf
-             /\ \A i \in 1..K.nf : /\ h.kinds[i] = "s" => (silk /\ S.dtx = 1)                  \* line 1388
+  IN [ok |-> d.bwOK /\ fit
+             /\ \A i \in 1..(IF fit THEN K.nf ELSE 0) : /\ h.kinds[i] = "s" => (silk /\ S.dtx = 1)                  \* line 1388
                                    /\ h.kinds[i] = "g" => (S.dtx = 1 /\ AnalysisMayRun(S)),    \* line 2416
       M  |-> [mode |-> d.mode, prevMode |-> rN.prevMode, sch |-> d.sch, prevCh |-> rN.prevCh, bw |-> h.bw,
               first |-> rN.first, bwSwitch |-> rN.bwSwitch,
